@@ -7,3 +7,9 @@ package mp4
 // VerifC02FirstSampleFlags returns the stored first-sample-flags field of a trun, whether or not its
 // presence flag is set.
 func VerifC02FirstSampleFlags(t *TrunBox) uint32 { return t.firstSampleFlags }
+
+// VerifC02SencRaw returns the raw data kept by a senc box that has been read but not parsed.
+func VerifC02SencRaw(s *SencBox) []byte { return s.rawData }
+
+// VerifC02SencReadSize returns the box size a decoded senc box remembers.
+func VerifC02SencReadSize(s *SencBox) uint64 { return s.readBoxSize }
